@@ -33,6 +33,10 @@ type c05Scenario struct {
 	WriteDeadline time.Duration
 	// FaultsAfterConnect: the fault plan (and FaultUntil) starts when the secured connection is up
 	FaultsAfterConnect bool
+	// HeldSendFirst: a first connection on which the relay exerts back pressure on the server's
+	// send stream; the server closes that connection while one of its relay sends is pending. Close
+	// must return, and the transfer then runs on the next connection
+	HeldSendFirst bool
 }
 
 type c05Result struct {
@@ -107,6 +111,30 @@ func runC05(sc *c05Scenario) *c05Result {
 			s0.Conn.Read(make([]byte, 10))
 			c0.Mailbox.Close()
 			s0.Mailbox.Close()
+		}
+	}
+	if sc.HeldSendFirst {
+		s0, c0, _ := st.ConnectRetry(5)
+		if s0.Err == nil && c0.Err == nil {
+			a := mailbox.GetSID(st.CurSID, true)
+			relay.Hold(sidKey(a[:]))
+			go s0.Conn.Write(highEntropy(300, sc.Seed+6))
+			for i := 0; i < 200 && relay.Held() == 0; i++ {
+				time.Sleep(10 * time.Millisecond)
+			}
+			pending := relay.Held()
+			done := make(chan struct{})
+			go func() { s0.Mailbox.Close(); close(done) }()
+			select {
+			case <-done:
+			case <-time.After(20 * time.Second):
+				res.Stuck = fmt.Sprintf("the server's Close of a connection with %d relay send(s) pending (back pressure) has not returned after 20 s", pending)
+				abandon = true
+				relay.Hold("")
+				return res
+			}
+			relay.Hold("")
+			c0.Mailbox.Close()
 		}
 	}
 	srv, cli, tries := st.ConnectRetry(5)
@@ -298,6 +326,9 @@ func c05Scenarios() []*c05Scenario {
 		scs = append(scs, &c05Scenario{Name: fmt.Sprintf("partial-read-then-reconnect-%d", n), Seed: 950 + i,
 			Writes: [2][]int{{50, 3000}, {70, 9}}, ReadBuf: [2]int{32768, 4096}, PartialFirst: n})
 	}
+	// the server closes a connection while the relay holds back one of its sends; next connection works
+	scs = append(scs, &c05Scenario{Name: "close-with-relay-send-pending", Seed: 955,
+		Writes: [2][]int{{50, 3000}, {70, 9}}, ReadBuf: [2]int{32768, 4096}, HeldSendFirst: true})
 	// the relay restarts (forgets the mailboxes) while a transfer is paused half-way
 	for i, d := range []time.Duration{1500 * time.Millisecond, 4 * time.Second}[:pick(1, 2)] {
 		scs = append(scs, &c05Scenario{Name: fmt.Sprintf("relay-restart-%v", d), Seed: 960 + i,
